@@ -2,8 +2,6 @@ package sim
 
 // Scenario payload stubs (replaced as scenarios are implemented).
 
-type HistCase struct{}
-type TreeCase struct{}
 type ConcCase struct{}
 type PFaultCase struct{}
 type RFaultCase struct{}
